@@ -25,7 +25,7 @@ what this very theorem establishes for the object after a returned upload), dire
 records (`WF`) and inode numbers in use are below `next` (`FreshInodes`). -/
 theorem C13_atomic_durable (P : Program) (dir : Path) (key data : Bytes) (o : Opts) (rnd : Name) (s : FS)
     (comps : Path) (hq : Quiescent s) (hwf : WF s) (hfr : FreshInodes s)
-    (hloc : localize key = some comps) (hne : dir ++ comps ≠ []) :
+    (hloc : localize key = some comps) :
     (∀ (k : Nat) (c : CrashChoice),
       (crash c (run s ((uploadTrace P dir key data o rnd s).1.take k))).object (dir ++ comps) = s.object (dir ++ comps) ∨
       (crash c (run s ((uploadTrace P dir key data o rnd s).1.take k))).object (dir ++ comps) = some data) ∧
@@ -33,7 +33,7 @@ theorem C13_atomic_durable (P : Program) (dir : Path) (key data : Bytes) (o : Op
       (∀ c : CrashChoice, (crash c (run s (uploadTrace P dir key data o rnd s).1)).object (dir ++ comps) = some data) ∧
       (run s (uploadTrace P dir key data o rnd s).1).object (dir ++ comps) = some data ∧
       Quiescent (run s (uploadTrace P dir key data o rnd s).1)) := by
-  obtain ⟨h1, h2⟩ := upload_atomic_durable P dir key data o rnd s comps hq hwf hfr hloc hne
+  obtain ⟨h1, h2⟩ := upload_atomic_durable P dir key data o rnd s comps hq hwf hfr hloc (localize_ne_nil dir key comps hloc)
   exact ⟨fun k c => h1 k c, fun hok => ⟨fun c => (h2 hok).1 c, (h2 hok).2.1, (h2 hok).2.2⟩⟩
 
 /-- The state found after any power loss is quiescent, whatever was going on. -/
@@ -56,7 +56,7 @@ implies `WF` and `FreshInodes` and holds in every state an upload goes through. 
 inductive Reach (P : Program) (dir : Path) (s0 : FS) : FS → Prop where
   | init : Reach P dir s0 s0
   | upload (s : FS) (key data : Bytes) (o : Opts) (rnd : Name) (comps : Path) :
-      Reach P dir s0 s → localize key = some comps → dir ++ comps ≠ [] →
+      Reach P dir s0 s → localize key = some comps →
       (uploadTrace P dir key data o rnd s).2 = .ok → Reach P dir s0 (run s (uploadTrace P dir key data o rnd s).1)
   | powerLoss (s : FS) (key data : Bytes) (o : Opts) (rnd : Name) (k : Nat) (c : CrashChoice) :
       Reach P dir s0 s → Reach P dir s0 (crash c (run s ((uploadTrace P dir key data o rnd s).1.take k)))
@@ -66,8 +66,8 @@ theorem C13_hypotheses_reachable (P : Program) (dir : Path) (s0 s : FS) (hq0 : Q
   suffices hs : Quiescent s ∧ Inv s from ⟨hs.1, hs.2.wf, hs.2.fresh⟩
   induction h with
   | init => exact ⟨hq0, hi0⟩
-  | upload s key data o rnd comps _ hloc hne hok ih =>
-    refine ⟨((C13_atomic_durable P dir key data o rnd s comps ih.1 ih.2.wf ih.2.fresh hloc hne).2 hok).2.2, ?_⟩
+  | upload s key data o rnd comps _ hloc hok ih =>
+    refine ⟨((C13_atomic_durable P dir key data o rnd s comps ih.1 ih.2.wf ih.2.fresh hloc).2 hok).2.2, ?_⟩
     have := upload_inv P dir key data o rnd s ih.2 (uploadTrace P dir key data o rnd s).1.length
     simpa using this
   | powerLoss s key data o rnd k c _ ih =>
@@ -169,7 +169,7 @@ example : (crash { keep := fun _ => [true, true, true], junk := fun _ => [1] } (
     = none := by decide
 example : ∀ c : CrashChoice, (crash c (run demoWorld demoTrace)).object pAB = some dat1 :=
   ((C13_atomic_durable program [demoRoot] kAB dat1 imm rnd1 demoWorld _ demo_quiescent demo_wf demo_fresh
-    (by decide) (by decide)).2 (by decide)).1
+    (by decide)).2 (by decide)).1
 
 /-! ### Order of the system calls -/
 
@@ -216,24 +216,24 @@ example : Sys.mkdir [demoRoot, [0x61]] ∈ demoTrace := by decide
 content. This needs `compareFile` to terminate, which is exactly `P.Progress`: the read buffer is
 never empty. -/
 theorem C13_immutable (P : Program) (hP : P.Progress) (dir : Path) (key data d : Bytes) (rnd : Name) (s : FS)
-    (comps : Path) (hloc : localize key = some comps) (hne : dir ++ comps ≠ [])
+    (comps : Path) (hloc : localize key = some comps)
     (hobj : s.object (dir ++ comps) = some d) :
     ((uploadTrace P dir key data imm rnd s).2 = if d = data then .ok else .mismatch) ∧
     run s (uploadTrace P dir key data imm rnd s).1 = s :=
-  upload_immutable_existing P hP dir key data d rnd s comps hloc hne hobj
+  upload_immutable_existing P hP dir key data d rnd s comps hloc (localize_ne_nil dir key comps hloc) hobj
 
 /-- The two-upload form of the property. -/
 theorem C13_immutable_after_upload (P : Program) (hP : P.Progress) (dir : Path) (key d data : Bytes) (rnd rnd' : Name)
     (s : FS) (comps : Path) (hq : Quiescent s) (hwf : WF s) (hfr : FreshInodes s)
-    (hloc : localize key = some comps) (hne : dir ++ comps ≠ [])
+    (hloc : localize key = some comps)
     (hfirst : (uploadTrace P dir key d imm rnd s).2 = .ok) :
     let s1 := run s (uploadTrace P dir key d imm rnd s).1
     ((uploadTrace P dir key data imm rnd' s1).2 = if d = data then .ok else .mismatch) ∧
     (run s1 (uploadTrace P dir key data imm rnd' s1).1).object (dir ++ comps) = some d := by
   intro s1
   have hobj : s1.object (dir ++ comps) = some d :=
-    ((C13_atomic_durable P dir key d imm rnd s comps hq hwf hfr hloc hne).2 hfirst).2.1
-  obtain ⟨h1, h2⟩ := C13_immutable P hP dir key data d rnd' s1 comps hloc hne hobj
+    ((C13_atomic_durable P dir key d imm rnd s comps hq hwf hfr hloc).2 hfirst).2.1
+  obtain ⟨h1, h2⟩ := C13_immutable P hP dir key data d rnd' s1 comps hloc hobj
   exact ⟨h1, by rw [h2]; exact hobj⟩
 
 /-- The precondition is satisfiable: a one-byte lower bound on the buffer suffices, and it can be
@@ -241,9 +241,12 @@ checked syntactically on the buffer expression. -/
 theorem C13_progress_guarded : programGuarded.Progress := programGuarded_progress
 theorem C13_progress_of_pos (P : Program) (h : P.buf.pos = true) : P.Progress := P.progress_of_pos h
 
-/-- **F1.** With the buffer expression of the code as found, `min(len(data), 16384)`, the
-precondition fails, and the loop of `compareFile` never returns for empty data, whatever the fuel:
-an immutable upload of empty bytes over ANY existing object (empty or not) hangs. -/
+/-- **F1 (repaired in /repo by commit 1e3891a; kept as the documented negative result).** With the
+buffer expression the code had before, `min(len(data), 16384)` (`program`), the precondition fails,
+and the loop of `compareFile` never returns for empty data, whatever the fuel: an immutable upload
+of empty bytes over ANY existing object (empty or not) hung. The current source has
+`max(1, min(len(data), 16384))` (`programGuarded`, `C13_progress_guarded`; `Tie.C13.compare_buf_positive`
+checks on every run that the expression in the source keeps the buffer non-empty). -/
 theorem C13_F1_no_progress_as_found : ¬ program.Progress := program_no_progress
 
 theorem C13_F1_empty_data_never_returns (file : Bytes) (fuel : Nat) :
@@ -251,9 +254,9 @@ theorem C13_F1_empty_data_never_returns (file : Bytes) (fuel : Nat) :
   rw [compareLoop_empty_data_diverges]
 
 theorem C13_F1_immutable_empty_upload_hangs (dir : Path) (key d : Bytes) (rnd : Name) (s : FS) (comps : Path)
-    (hloc : localize key = some comps) (hne : dir ++ comps ≠ []) (hobj : s.object (dir ++ comps) = some d) :
+    (hloc : localize key = some comps) (hobj : s.object (dir ++ comps) = some d) :
     (uploadTrace program dir key [] imm rnd s).2 = .hang :=
-  upload_immutable_empty_hangs dir key d rnd s comps hloc hne hobj
+  upload_immutable_empty_hangs dir key d rnd s comps hloc (localize_ne_nil dir key comps hloc) hobj
 
 /-! Non-vacuity: same / different / longer / shorter / empty, with the guarded and the found program. -/
 def demoS1 : FS := run demoWorld demoTrace
@@ -271,43 +274,46 @@ example : (compareLoop 2 10 [1, 2, 3] [1, 2, 4]).2 = some false := by decide
 
 /-! ### Confinement -/
 
-/-- (1) An accepted key consists of plain names: no empty, `.` or `..` component, no separator, no
-NUL; keys that are empty, absolute, contain NUL or a `..` component are rejected. (2) For a rejected
-key `Upload`, `Fetch` and `Discard` fail without a single system call. (3) For an accepted key other
-than `"."` every path named by any system call of `Upload` (incl. `MkdirAll`, the temporary file and
-its rename), `Fetch` and `Discard` is the backend directory or lies below it. -/
+/-- (1) An accepted key is a NON-EMPTY list of plain names: no empty, `.` or `..` component, no
+separator, no NUL; keys that are empty, `"."`, absolute, contain NUL or a `..` component are rejected.
+(2) For a rejected key `Upload`, `Fetch` and `Discard` fail without a single system call. (3) For
+EVERY accepted key every path named by any system call of `Upload` (incl. `MkdirAll`, the temporary
+file and its rename), `Fetch` and `Discard` is the backend directory or lies below it. -/
 theorem C13_confined (P : Program) (dir : Path) (key data : Bytes) (o : Opts) (rnd : Name) (s : FS) :
     (∀ comps, localize key = some comps →
+      comps ≠ [] ∧
       (∀ c ∈ comps, c ≠ [] ∧ c ≠ dot ∧ c ≠ dotdot ∧ slash ∉ c ∧ (0 : UInt8) ∉ c) ∧
-      (comps ≠ [] → s.lookup dir = some .dir →
+      (s.lookup dir = some .dir →
         ∀ e ∈ (uploadTrace P dir key data o rnd s).1, ∀ x ∈ e.paths, Within dir x) ∧
       (∀ e ∈ (fetchTrace dir key s).1, ∀ x ∈ e.paths, Within dir x) ∧
       (∀ e ∈ (discardTrace dir key s).1, ∀ x ∈ e.paths, Within dir x)) ∧
     (localize key = none →
       uploadTrace P dir key data o rnd s = ([], .invalidKey) ∧ fetchTrace dir key s = ([], .invalidKey, none) ∧
       discardTrace dir key s = ([], .invalidKey)) ∧
-    ((key = [] ∨ (∃ rest, key = slash :: rest) ∨ (0 : UInt8) ∈ key ∨ dotdot ∈ splitSlash key) → localize key = none) := by
-  refine ⟨fun comps hloc => ⟨localize_components key comps hloc,
-      fun hne hdir => upload_confined P dir key data o rnd s comps hloc hne hdir,
+    ((key = [] ∨ key = dot ∨ (∃ rest, key = slash :: rest) ∨ (0 : UInt8) ∈ key ∨ dotdot ∈ splitSlash key) →
+      localize key = none) := by
+  refine ⟨fun comps hloc => ⟨(localize_some key comps hloc).2, localize_components key comps hloc,
+      fun hdir => upload_confined P dir key data o rnd s comps hloc (localize_some key comps hloc).2 hdir,
       fetch_confined dir key s comps hloc, discard_confined dir key s comps hloc⟩,
     fun h => ⟨upload_rejected P dir key data o rnd s h, fetch_rejected dir key s h, discard_rejected dir key s h⟩, ?_⟩
-  rintro (rfl | ⟨rest, rfl⟩ | h | h)
+  rintro (rfl | rfl | ⟨rest, rfl⟩ | h | h)
   · exact localize_rejects_empty
+  · exact localize_rejects_dot.2
   · exact localize_rejects_absolute rest
   · exact localize_rejects_nul key h
   · exact localize_rejects_dotdot key h
 
-/-- **F8.** The key `"."` is accepted by `filepath.Localize` and denotes the backend directory
-itself: `Upload(".")` creates (and removes again) its temporary file, holding the data, in the
-PARENT of the backend directory. The hypothesis `comps ≠ []` of (3) cannot be dropped. -/
-theorem C13_dot_key_escapes :
-    localize dot = some [] ∧
-    Sys.creat [tmpName demoRoot rnd1] 1 ∈ (uploadTrace program [demoRoot] dot dat1 plain rnd1 demoWorld).1 ∧
-    ¬ Within [demoRoot] [tmpName demoRoot rnd1] := by
-  refine ⟨by decide, by decide, ?_⟩
-  unfold Within; decide
+/-- **F8 (repaired in /repo by commit 9a1f05e).** `filepath.Localize` alone accepts the key `"."`,
+which denotes the backend directory itself (no component: `Upload(".")` would put its temporary
+file into the PARENT of the backend directory); the helper `localize` of local.go refuses it, so
+`Upload(".")` issues no system call. -/
+theorem C13_dot_key_rejected (P : Program) (dir : Path) (data : Bytes) (o : Opts) (rnd : Name) (s : FS) :
+    stdLocalize dot = some [] ∧ localize dot = none ∧
+    uploadTrace P dir dot data o rnd s = ([], .invalidKey) :=
+  ⟨localize_rejects_dot.1, localize_rejects_dot.2, upload_rejected P dir dot data o rnd s localize_rejects_dot.2⟩
 
 /-! Non-vacuity of the key rules. -/
+example : localize [0x2e] = none := by decide                                          -- "."
 example : localize [0x2e, 0x2e] = none := by decide                                    -- ".."
 example : localize [0x61, 0x2f, 0x2e, 0x2e, 0x2f, 0x62] = none := by decide            -- "a/../b"
 example : localize [0x2f, 0x61] = none := by decide                                    -- "/a"
@@ -318,7 +324,7 @@ example : localize [0xff] = none := by decide                                   
 example : localize [0x61, 0x5c, 0x62] = some [[0x61, 0x5c, 0x62]] := by decide         -- "a\b" is one plain name on Unix
 example : localize [0x2e, 0x2e, 0x2e] = some [[0x2e, 0x2e, 0x2e]] := by decide         -- "..."
 example : ∀ e ∈ demoTrace, ∀ x ∈ e.paths, Within [demoRoot] x :=
-  (C13_confined program [demoRoot] kAB dat1 imm rnd1 demoWorld).1 [[0x61], [0x62]] (by decide) |>.2.1 (by decide) (by decide)
+  (C13_confined program [demoRoot] kAB dat1 imm rnd1 demoWorld).1 [[0x61], [0x62]] (by decide) |>.2.2.1 (by decide)
 
 /-! ### F4: what the theorem's hypothesis excludes
 
